@@ -171,3 +171,243 @@ Proof.
   - exact Hpend.
   - apply LI_touch; auto. apply LI_touch; auto.
 Qed.
+
+Lemma nheld_ge : forall n rs, (forall r i, In (r, i) rs -> (i < n)%nat) -> nheld n rs = 0.
+Proof.
+  induction rs as [|[r j] t IH]; cbn; intros H; [easy|].
+  rewrite IH by (intros; eapply H; right; eauto).
+  assert (j < n)%nat by (eapply H; left; eauto).
+  destruct (Nat.eqb_spec j n); [lia|reflexivity].
+Qed.
+
+Lemma pinned_open : forall s r i, Inv s -> In (r, i) (readers s) -> bks s (w_bk (ws s i)) = 0.
+Proof.
+  intros s r i HI Hin. pose proof (I_rd s HI _ _ Hin) as Hi.
+  rewrite (I_cl s HI _ Hi), (I_ref s HI _ Hi). apply nheld_in in Hin.
+  destruct (nheld i (readers s) =? 0) eqn:E; [lia|]. now rewrite andb_false_r.
+Qed.
+
+Lemma inv_set_log : forall s l, Inv s -> LogInv l (bks s) (nb s) -> Inv (set_log l s).
+Proof. intros s l [] H. constructor; cbn; auto. Qed.
+
+Lemma inv_touch : forall s b o, Inv s -> bks s b = 0 -> is_close o = false -> is_open o = false ->
+  Inv (touch b o s).
+Proof. intros. apply inv_set_log; auto. apply LI_touch; auto. apply I_log; auto. Qed.
+
+Lemma inv_set_pending : forall s l, Inv s -> (forall p, In p l -> p = served s /\ shut s = false) ->
+  Inv (set_pending l s).
+Proof. intros s l [] H. constructor; cbn; auto. Qed.
+
+Lemma step_use : forall s r, Inv s -> ok_op s (Use r) = true -> Inv (step (Use r) s).
+Proof.
+  intros s r HI Hok. cbn in *. unfold held in Hok.
+  destruct (lookup r (readers s)) as [i|] eqn:E; [|discriminate].
+  apply inv_touch; auto. eapply pinned_open; eauto using lookup_in.
+Qed.
+
+Lemma step_release : forall s r, Inv s -> ok_op s (Release r) = true -> Inv (step (Release r) s).
+Proof.
+  intros s r HI Hok. cbn in Hok. unfold held in Hok. unfold step.
+  destruct (lookup r (readers s)) as [i|] eqn:E; [|discriminate].
+  pose proof (lookup_in _ _ _ E) as Hin.
+  pose proof (pinned_open s r i HI Hin) as Hopen.
+  pose proof (nheld_in _ _ _ Hin) as Hpos.
+  pose proof (nheld_remove_r _ _ _ E) as Hrem.
+  destruct HI as [Hsv Hbk Hinj Href Hdes Hcl Horph Hrd Hpend Hlog].
+  destruct s as [sv n w m bk rd pd sh lg]. cbn in *.
+  pose proof (Hrd _ _ Hin) as Hi.
+  assert (Hdec : dec64 (w_ref (w i)) = nheld i (remove_r r rd)).
+  { unfold dec64. rewrite Href by auto. rewrite (Hrem i) in *. rewrite Nat.eqb_refl in *.
+    destruct (1 + nheld i (remove_r r rd) =? 0) eqn:Z; lia. }
+  unfold on_wrapper, w_reader_close. cbn.
+  destruct (w_destroyable (w i) && (dec64 (w_ref (w i)) =? 0)) eqn:C; cbn.
+  - (* last reader of a destroyable wrapper: the backend is closed *)
+    constructor; cbn.
+    + exact Hsv.
+    + intros j Hj. unfold fupd. destruct (Nat.eqb_spec j i); subst; cbn; auto.
+    + intros j k Hj Hk. unfold fupd. destruct (Nat.eqb_spec j i); destruct (Nat.eqb_spec k i); subst; cbn; intro X; auto.
+    + intros j Hj. unfold fupd. destruct (Nat.eqb_spec j i); subst; cbn; auto.
+      rewrite Href, (Hrem j) by auto. destruct (Nat.eqb_spec i j); [congruence|lia].
+    + intros j Hj. rewrite <- Hdes by auto. unfold fupd. destruct (Nat.eqb_spec j i); subst; reflexivity.
+    + intros j Hj. unfold fupd at 2 3 4. destruct (Nat.eqb_spec j i); subst; cbn.
+      * rewrite fupd_eq, C, Hopen. reflexivity.
+      * rewrite fupd_neq; auto.
+    + intros b Hb H. assert (b <> w_bk (w i)).
+      { intro X. apply (H i Hi). unfold fupd. rewrite Nat.eqb_refl. cbn. auto. }
+      rewrite fupd_neq by auto. apply Horph; auto. intros j Hj. specialize (H j Hj). unfold fupd in H.
+      destruct (Nat.eqb_spec j i); subst; cbn in H; auto.
+    + intros r' j H. apply in_remove_r in H. eauto.
+    + exact Hpend.
+    + apply LI_close; auto. apply LI_touch; auto.
+  - constructor; cbn.
+    + exact Hsv.
+    + intros j Hj. unfold fupd. destruct (Nat.eqb_spec j i); subst; cbn; auto.
+    + intros j k Hj Hk. unfold fupd. destruct (Nat.eqb_spec j i); destruct (Nat.eqb_spec k i); subst; cbn; intro X; auto.
+    + intros j Hj. unfold fupd. destruct (Nat.eqb_spec j i); subst; cbn; auto.
+      rewrite Href, (Hrem j) by auto. destruct (Nat.eqb_spec i j); [congruence|lia].
+    + intros j Hj. rewrite <- Hdes by auto. unfold fupd. destruct (Nat.eqb_spec j i); subst; reflexivity.
+    + intros j Hj. unfold fupd. destruct (Nat.eqb_spec j i); subst; cbn; auto.
+      rewrite C. exact Hopen.
+    + intros b Hb H. apply Horph; auto. intros j Hj. specialize (H j Hj). unfold fupd in H.
+      destruct (Nat.eqb_spec j i); subst; cbn in H; auto.
+    + intros r' j H. apply in_remove_r in H. eauto.
+    + exact Hpend.
+    + apply LI_touch; auto.
+Qed.
+
+Lemma step_shutdown : forall s, Inv s -> ok_op s Shutdown = true -> Inv (step Shutdown s).
+Proof.
+  intros s HI Hok. cbn in Hok. apply andb_prop in Hok. destruct Hok as [Hsh Hnp].
+  apply negb_true_iff in Hsh. pose proof (served_open s HI Hsh) as Hopen.
+  destruct HI as [Hsv Hbk Hinj Href Hdes Hcl Horph Hrd Hpend Hlog].
+  destruct s as [sv n w m bk rd pd sh lg]. cbn in *. subst sh.
+  unfold no_pending in Hnp. cbn in Hnp. destruct pd; [|discriminate].
+  unfold on_wrapper, w_destroy. cbn.
+  destruct (w_ref (w sv) =? 0) eqn:C; cbn.
+  - constructor; cbn.
+    + exact Hsv.
+    + intros j Hj. unfold fupd. destruct (Nat.eqb_spec j sv); subst; cbn; auto.
+    + intros j k Hj Hk. unfold fupd. destruct (Nat.eqb_spec j sv); destruct (Nat.eqb_spec k sv); subst; cbn; intro X; auto.
+    + intros j Hj. unfold fupd. destruct (Nat.eqb_spec j sv); subst; cbn; auto.
+    + intros j Hj. rewrite orb_true_r. unfold fupd. destruct (Nat.eqb_spec j sv) as [|ne]; subst; cbn; auto.
+      rewrite Hdes by auto. apply Nat.eqb_neq in ne. now rewrite ne.
+    + intros j Hj. unfold fupd at 2 3 4. destruct (Nat.eqb_spec j sv); subst; cbn.
+      * rewrite fupd_eq, C, Hopen. reflexivity.
+      * rewrite fupd_neq; auto.
+    + intros b Hb H. assert (b <> w_bk (w sv)).
+      { intro X. apply (H sv Hsv). unfold fupd. rewrite Nat.eqb_refl. cbn. auto. }
+      rewrite fupd_neq by auto. apply Horph; auto. intros j Hj. specialize (H j Hj). unfold fupd in H.
+      destruct (Nat.eqb_spec j sv); subst; cbn in H; auto.
+    + exact Hrd.
+    + easy.
+    + apply LI_close; auto.
+  - constructor; cbn.
+    + exact Hsv.
+    + intros j Hj. unfold fupd. destruct (Nat.eqb_spec j sv); subst; cbn; auto.
+    + intros j k Hj Hk. unfold fupd. destruct (Nat.eqb_spec j sv); destruct (Nat.eqb_spec k sv); subst; cbn; intro X; auto.
+    + intros j Hj. unfold fupd. destruct (Nat.eqb_spec j sv); subst; cbn; auto.
+    + intros j Hj. rewrite orb_true_r. unfold fupd. destruct (Nat.eqb_spec j sv) as [|ne]; subst; cbn; auto.
+      rewrite Hdes by auto. apply Nat.eqb_neq in ne. now rewrite ne.
+    + intros j Hj. unfold fupd. destruct (Nat.eqb_spec j sv); subst; cbn; auto.
+      rewrite C. exact Hopen.
+    + intros b Hb H. apply Horph; auto. intros j Hj. specialize (H j Hj). unfold fupd in H.
+      destruct (Nat.eqb_spec j sv); subst; cbn in H; auto.
+    + exact Hrd.
+    + easy.
+    + exact Hlog.
+Qed.
+
+(* a candidate backend that is opened by the reload goroutine and closed again
+   without ever getting a wrapper (both timeout orders) *)
+Lemma inv_orphan_cand : forall s bf, Inv s -> bks s bf = 0 -> (bf < nb s)%nat ->
+  Inv (bclose (nb s) (touch bf OpReloadRet (snd (alloc s)))).
+Proof.
+  intros s bf HI Hopen Hbf.
+  destruct HI as [Hsv Hbk Hinj Href Hdes Hcl Horph Hrd Hpend Hlog].
+  destruct s as [sv n w m bk rd pd sh lg]. cbn in *.
+  constructor; cbn; auto.
+  - intros i Hi. specialize (Hbk i Hi). lia.
+  - intros i Hi. specialize (Hbk i Hi). unfold fupd. destruct (Nat.eqb_spec (w_bk (w i)) m); [lia|]. auto.
+  - intros b Hb H. unfold fupd. rewrite Nat.eqb_refl. destruct (Nat.eqb_spec b m); [reflexivity|].
+    apply Horph; auto. lia.
+  - apply LI_close; [|lia]. apply LI_touch; try reflexivity.
+    + apply LI_alloc; auto.
+    + unfold fupd. destruct (Nat.eqb_spec bf m); [lia|auto].
+Qed.
+
+Lemma go_end_new : forall f k s,
+  go_reload_end f (CNew k) s = (Some (nb s), touch (w_bk f) OpReloadRet (snd (alloc s))).
+Proof. reflexivity. Qed.
+
+Lemma served_bk_lt : forall s, Inv s -> (w_bk (ws s (served s)) < nb s)%nat.
+Proof. intros s HI. apply (I_bk s HI). apply (I_served s HI). Qed.
+
+(* closing the fresh candidate after the goroutine produced it, from a state in
+   which backend bf is open *)
+Lemma inv_cand_closed : forall s f c, Inv s -> bks s (w_bk f) = 0 -> (w_bk f < nb s)%nat ->
+  Inv (let '(local, s1) := go_reload_end f c s in
+       match local with
+       | Some b' => if negb (Nat.eqb b' (w_bk f)) then bclose b' s1 else s1
+       | None => s1
+       end).
+Proof.
+  intros s f c HI Hopen Hlt. destruct c as [k|k|].
+  - rewrite go_end_new. destruct (Nat.eqb_spec (nb s) (w_bk f)); [lia|]. cbn [negb].
+    apply inv_orphan_cand; auto.
+  - cbn [go_reload_end]. rewrite Nat.eqb_refl. cbn [negb]. apply inv_touch; auto.
+  - cbn [go_reload_end]. apply inv_touch; auto.
+Qed.
+
+Lemma step_timeout_pub : forall s c, Inv s -> ok_op s (ReloadTimeoutPub c) = true ->
+  Inv (step (ReloadTimeoutPub c) s).
+Proof.
+  intros s c HI Hok. cbn in Hok. apply negb_true_iff in Hok.
+  pose proof (served_open s HI Hok) as Hopen. pose proof (served_bk_lt s HI) as Hlt.
+  unfold step, reload_timeout_pub, go_reload_begin.
+  apply (inv_cand_closed (touch (w_bk (ws s (served s))) OpReload s)); auto.
+  apply inv_touch; auto.
+Qed.
+
+Lemma step_timeout_first : forall s, Inv s -> ok_op s ReloadTimeoutFirst = true ->
+  Inv (step ReloadTimeoutFirst s).
+Proof.
+  intros s HI Hok. cbn in Hok. apply negb_true_iff in Hok.
+  pose proof (served_open s HI Hok) as Hopen.
+  unfold step, reload_timeout_first, go_reload_begin.
+  apply inv_set_pending.
+  - apply inv_touch; auto.
+  - cbn. intros p Hp. apply in_app_or in Hp. destruct Hp as [Hp|[Hp|[]]].
+    + apply (I_pend s HI); auto.
+    + auto.
+Qed.
+
+Lemma step_late : forall s i c, Inv s -> ok_op s (LateComplete i c) = true ->
+  Inv (step (LateComplete i c) s).
+Proof.
+  intros s i c HI Hok. unfold step, late_complete.
+  destruct (nth_error (pending s) i) as [p|] eqn:E; [|exact HI].
+  apply nth_error_In in E. destruct (I_pend s HI p E) as [-> Hsh].
+  pose proof (served_open s HI Hsh) as Hopen. pose proof (served_bk_lt s HI) as Hlt.
+  pose proof (inv_cand_closed s (ws s (served s)) c HI Hopen Hlt) as H.
+  destruct (go_reload_end (ws s (served s)) c s) as [local s1] eqn:G.
+  assert (Hsame : pending s1 = pending s /\ served s1 = served s /\ shut s1 = shut s).
+  { destruct c; cbn in G; inversion G; subst; cbn; auto. }
+  destruct Hsame as (Hp & Hs1 & Hs2).
+  set (s2 := match local with
+             | Some b' => if negb (Nat.eqb b' (w_bk (ws s (served s)))) then bclose b' s1 else s1
+             | None => s1 end) in *.
+  assert (Hsame2 : pending s2 = pending s /\ served s2 = served s /\ shut s2 = shut s).
+  { subst s2. destruct local as [b'|]; [destruct (negb _)|]; cbn; auto. }
+  destruct Hsame2 as (Hp2 & Hs21 & Hs22).
+  apply inv_set_pending; auto.
+  intros q Hq. apply in_remove_nth in Hq. rewrite Hp2 in Hq. rewrite Hs21, Hs22. apply (I_pend s HI); auto.
+Qed.
+
+Ltac touches := repeat (apply inv_touch; [|solve [cbn; auto]|reflexivity|reflexivity]).
+
+Definition touches4 (b : nat) (s : state) : state :=
+  touch b OpFreeContext (touch b OpForEach (touch b OpFinder (touch b OpNewContext s))).
+
+Lemma validate_fresh : forall b k s,
+  w_validate (mkW b 0 false) k s = (mkW b 0 false, touches4 b s, k).
+Proof. reflexivity. Qed.
+
+Lemma inv_touches4 : forall s b, Inv s -> bks s b = 0 -> Inv (touches4 b s).
+Proof. intros. unfold touches4. touches. auto. Qed.
+
+Lemma step_reload_err : forall s, Inv s -> ok_op s (Reload CErr) = true -> Inv (step (Reload CErr) s).
+Proof.
+  intros s HI Hok. cbn in Hok. apply negb_true_iff in Hok.
+  pose proof (served_open s HI Hok) as Hopen.
+  unfold step, reload_main, go_reload_begin. cbn [go_reload_end].
+  touches. auto.
+Qed.
+
+Lemma step_reload_same : forall s k, Inv s -> ok_op s (Reload (CSame k)) = true ->
+  Inv (step (Reload (CSame k)) s).
+Proof.
+  intros s k HI Hok. assert (Hsh : shut s = false) by (destruct k; cbn in Hok; now apply negb_true_iff in Hok).
+  pose proof (served_open s HI Hsh) as Hopen.
+  unfold step, reload_main, go_reload_begin. cbn [go_reload_end]. rewrite Nat.eqb_refl.
+  rewrite validate_fresh. apply inv_touches4; [touches; auto|exact Hopen].
+Qed.
